@@ -73,11 +73,9 @@ func c07Q1(r *Run, rep *core.Report, mm *core.MapModel) {
 	var loadIn ssa.Instruction
 	core.Instrs(f, func(in ssa.Instruction) {
 		if c, ok := in.(*ssa.Call); ok {
-			if op, addr, ok := core.AtomicOp(c); ok && op == "Load" {
-				if a := core.Addr(addr); a.Owner == mm.Name && a.Field == mm.TableF {
-					nLoads++
-					loadIn = in
-				}
+			if a, ok := atomicLoadPath(c); ok && a.Owner == mm.Name && a.Field == mm.TableF {
+				nLoads++
+				loadIn = in
 			}
 		}
 	})
@@ -93,17 +91,34 @@ func c07Q1(r *Run, rep *core.Report, mm *core.MapModel) {
 	}
 	var collected ssa.Value // the phi at the outer loop header carrying the slice
 	nAppend, nVisit := 0, 0
+	// collect sites may live in a helper the traversal calls (lock / copy chain / unlock extracted)
+	var helpers []*ssa.Function
+	core.Instrs(f, func(in ssa.Instruction) {
+		if c, ok := in.(ssa.CallInstruction); ok {
+			if cal := core.Callee(c); cal != nil && cal.Pkg == r.P.Xsync && cal.Blocks != nil && r.M.AcquiresBucketLock(cal) && !r.M.Acquire[cal] {
+				if _, isW := r.M.Wrappers[cal]; !isW {
+					helpers = append(helpers, cal)
+				}
+			}
+		}
+	})
+	for _, g := range append([]*ssa.Function{f}, helpers...) {
+		lg := lockFactsCached(r, g, core.Spec{})
+		core.Instrs(g, func(in ssa.Instruction) {
+			c, ok := in.(ssa.CallInstruction)
+			if !ok || core.IsBuiltinCall(c) != "append" {
+				return
+			}
+			nAppend++
+			must, _, _ := lg.HeldAt(in)
+			rep.Check(must, "C07.Q1", fn(g)+" collects under the lock", r.P.InstrPos(in), "entries are copied into the intermediate slice while the bucket lock is held", "entries are collected without the bucket lock: a concurrent writer can change the chain mid-copy, so a key can be visited with another key's value or twice")
+			c07Q2(r, rep, mm, g, c)
+		})
+	}
 	core.Instrs(f, func(in ssa.Instruction) {
 		c, ok := in.(ssa.CallInstruction)
 		if !ok {
 			return
-		}
-		if core.IsBuiltinCall(c) == "append" {
-			nAppend++
-			must, _, _ := lf.HeldAt(in)
-			rep.Check(must, "C07.Q1", fn(f)+" collects under the lock", r.P.InstrPos(in), "entries are copied into the intermediate slice while the bucket lock is held", "entries are collected without the bucket lock: a concurrent writer can change the chain mid-copy, so a key can be visited with another key's value or twice")
-			// Q2: the appended element's fields come from the same slot
-			c07Q2(r, rep, mm, f, c)
 		}
 		if visitor != nil && c.Common().Value == ssa.Value(visitor) {
 			nVisit++
@@ -171,6 +186,11 @@ func c07Q1(r *Run, rep *core.Report, mm *core.MapModel) {
 					if ev := r.M.LockEventOf(x); ev != nil && ev.Acquire {
 						hasAcq = true
 					}
+					if c, isC := x.(ssa.CallInstruction); isC {
+						if cal := core.Callee(c); cal != nil && cal.Blocks != nil && r.M.AcquiresBucketLock(cal) {
+							hasAcq = true
+						}
+					}
 				}
 			}
 			if !hasAcq {
@@ -208,6 +228,14 @@ func feedsAppend(phi *ssa.Phi) bool {
 			case *ssa.Call:
 				if core.IsBuiltinCall(x) == "append" {
 					return true
+				}
+				// handed to a helper that appends to its parameter
+				if cal := core.Callee(x); cal != nil && cal.Blocks != nil {
+					for ai, a := range x.Call.Args {
+						if a == v && ai < len(cal.Params) && walk(cal.Params[ai], d+1) {
+							return true
+						}
+					}
 				}
 			case *ssa.Phi:
 				if walk(x, d+1) {
